@@ -4,15 +4,19 @@
 Require Extraction.
 Require Import ExtrOcamlBasic.
 From Coq Require Import List NArith.
-From V Require Import Spec.Bfun.
+From V Require Import Spec.Bfun Spec.Transform Spec.BddSpec Checkers.Check.
 From V Require Import Base.Res Gen.Tables Model.Kernels Model.Canon Model.Decomp Model.Bdd Model.TwoLevel Model.Api.
 Extraction Language OCaml.
 Set Extraction KeepSingleton.
 Extraction "model.ml"
   (* tables, for the translator cross-check *)
   VAR_MASK NUM_VARS_MASK COUNT_MASKS SWAP_INPUT_MASKS FLIPS SWAPS PARITY_COUNT_VALUES
-  (* spec *)
-  val wfb
+  (* spec and checkers *)
+  val wfb identity cert_okb bdd_nodes
+  chk_table spec_not spec_and spec_or spec_xor spec_flip spec_swap spec_cof0 spec_cof1 spec_from_cof
+  spec_zero spec_one spec_nth_var spec_symmetric spec_equals spec_threshold spec_parity spec_majority spec_set
+  bigN chk_cmp chk_next chk_eq chk_cert chk_minimal spec_top spec_pos_unate spec_neg_unate decomp_eqb chk_bdd
+  cube_good sem_or sem_xor sem_soes irredundantb chk_sop_result chk_esop_result chk_esop_from_lut chk_sop_from_lut dom
   (* api *)
   mkLut lut_new table_size num_bits num_blocks
   D_one D_zero D_nth_var D_parity D_majority D_threshold D_equals D_symmetric D_default D_random
